@@ -126,6 +126,9 @@ def r09_4(repo: Repo, rep: Report, c) -> None:
 
 def run(repo: Repo, rep: Report, tier: str) -> None:
     r09_1(repo, rep)
+    from ..core import helper_contracts as hc
+    hc.report(repo, rep, "R09.5", hc.discriminator_lookup(repo), f"{M_BUILDER}::CodeBuilder.get_discriminator")
+    hc.report(repo, rep, "R09.6", hc.dataclass_fields_contract(repo), f"{M_BUILDER}::CodeBuilder.dataclass_fields")
     res = fieldblock.analyse(repo)
     rep.analysed.update({"build_paths": res.paths, "distinct_blocks": res.skeletons, "valuations": res.valuations})
     for u in res.undecided:
